@@ -120,8 +120,13 @@ def diff_snap(a, b):
 
 
 def under(path, root):
+    """path lies at or below root - as spelled, or once symbolic links are resolved (a write through a link
+    to an input is a write into the input)"""
     path = os.path.normpath(path); root = os.path.normpath(root)
-    return path == root or path.startswith(root + os.sep)
+    if path == root or path.startswith(root + os.sep):
+        return True
+    rp, rr = os.path.realpath(path), os.path.realpath(root)
+    return rp == rr or rp.startswith(rr + os.sep)
 
 
 STRACE_RE = re.compile(r'^\d+\s+(\w+)\((.*)\)\s+=\s+(-?\d+)')
